@@ -233,6 +233,7 @@ class DISPENSO_CACHELINE_ALIGNED ThreadPool {
     std::lock_guard<std::mutex> lk(threadsMutex_);
     ssize_t currentPoolSize = numThreads();
     resizeLocked(0);
+    DISPENSO_VERIF_POINT("TpStoreEnable", this);
     enableEpochWaiter_.store(enable, std::memory_order_release);
     sleepLengthUs_.store(sleepDurationUs, std::memory_order_release);
     resizeLocked(currentPoolSize);
@@ -317,10 +318,13 @@ class DISPENSO_CACHELINE_ALIGNED ThreadPool {
   // Missed wakes are benign: the EpochWaiter's sleep timeout provides a safety
   // net, so a missed wake only delays wakeup by up to that duration.
   void conditionallyWake() {
+    DISPENSO_VERIF_POINT("TpLoadWake", this);
     auto* ws = detail::consumeLoad(wakeState_);
     if (enableEpochWaiter_.load(std::memory_order_acquire) && ws) {
+      DISPENSO_VERIF_POINT("TpReadSleeping", this);
       int32_t sleeping = ws->totalSleeping();
       if (sleeping > 0) {
+        DISPENSO_VERIF_POINT("TpReadPending", this);
         ssize_t pending = workRemaining_.load(std::memory_order_relaxed);
         ssize_t numT = numThreads_.load(std::memory_order_relaxed);
         ssize_t awake = numT - static_cast<ssize_t>(sleeping);
@@ -345,7 +349,11 @@ class DISPENSO_CACHELINE_ALIGNED ThreadPool {
  private:
   // Per-thread ring buffer type for fork-join scheduling.
   // 16 slots matches kAuto's oversubscription factor and fits in one cache line group.
+  #if defined(DISPENSO_VERIF_RING_CAPACITY)
+  using Ring = MpmcRingBuffer<OnceFunction, DISPENSO_VERIF_RING_CAPACITY>;
+  #else
   using Ring = MpmcRingBuffer<OnceFunction, 16>;
+  #endif // DISPENSO_VERIF_RING_CAPACITY
 
   // Steal ring configuration.
   // Slots per thread: base capacity before sharing multiplier.
@@ -380,6 +388,7 @@ class DISPENSO_CACHELINE_ALIGNED ThreadPool {
   // tractable in general; throwing lets the application unwind or terminate.
   DISPENSO_INLINE void enqueueToCentralQueue(OnceFunction task, moodycamel::ProducerToken* token) {
     DISPENSO_TSAN_ANNOTATE_IGNORE_WRITES_BEGIN();
+    DISPENSO_VERIF_POINT("TpEnqueue", this);
     bool enqueued;
     if (token) {
       enqueued = work_.enqueue(*token, std::move(task));
@@ -395,6 +404,7 @@ class DISPENSO_CACHELINE_ALIGNED ThreadPool {
 #endif
     }
     // Mark queue as possibly-non-empty so spinning workers will try_dequeue.
+    DISPENSO_VERIF_POINT("TpSetFlag", this);
     centralQueueNonEmpty_.store(true, std::memory_order_relaxed);
   }
 
@@ -567,6 +577,7 @@ DISPENSO_DLL_ACCESS void resizeGlobalThreadPool(size_t numThreads);
 // ----------------------------- Implementation details -------------------------------------
 
 DISPENSO_INLINE bool ThreadPool::shouldRunInline() {
+  DISPENSO_VERIF_POINT("TpInlineCheck", this);
   ssize_t curWork = workRemaining_.load(std::memory_order_relaxed);
   ssize_t quickLoadFactor = numThreads_.load(std::memory_order_relaxed);
   quickLoadFactor += quickLoadFactor / 2;
@@ -576,10 +587,12 @@ DISPENSO_INLINE bool ThreadPool::shouldRunInline() {
 
 template <bool kPlaced, typename F>
 inline void ThreadPool::forceEnqueue(F&& f, moodycamel::ProducerToken* token) {
+  DISPENSO_VERIF_POINT("TpFqLoadThreads", this);
   if (!numThreads_.load(std::memory_order_relaxed)) {
     f();
     return;
   }
+  DISPENSO_VERIF_POINT("TpAddWork", this);
   workRemaining_.fetch_add(1, std::memory_order_release);
   if (kPlaced) {
     scheduleImplPlaced({std::forward<F>(f)}, token);
@@ -660,10 +673,13 @@ DISPENSO_INLINE void ThreadPool::scheduleImpl(OnceFunction task, moodycamel::Pro
   // cadence but using per-thread futexes. The one-at-a-time approach
   // avoids thundering herd on the central queue while still waking
   // threads proportionally to submitted work over a burst.
+  DISPENSO_VERIF_POINT("TpLoadWake", this);
   auto* ws = detail::consumeLoad(wakeState_);
   if (enableEpochWaiter_.load(std::memory_order_acquire) && ws) {
+    DISPENSO_VERIF_POINT("TpReadSleeping", this);
     int32_t sleeping = ws->totalSleeping();
     if (sleeping > 0) {
+      DISPENSO_VERIF_POINT("TpReadPending", this);
       ssize_t pending = workRemaining_.load(std::memory_order_relaxed);
       ssize_t numT = numThreads_.load(std::memory_order_relaxed);
       ssize_t awake = numT - static_cast<ssize_t>(sleeping);
@@ -678,17 +694,22 @@ DISPENSO_INLINE void ThreadPool::scheduleImplPlaced(
     OnceFunction task,
     moodycamel::ProducerToken* token) {
   // Proactive wake: claim a sleeping thread and push to its steal ring.
+  DISPENSO_VERIF_POINT("TpLoadWake", this);
   auto* ws = detail::consumeLoad(wakeState_);
   if (enableEpochWaiter_.load(std::memory_order_acquire) && ws) {
+    DISPENSO_VERIF_POINT("TpReadSleeping", this);
     int32_t sleeping = ws->totalSleeping();
+    DISPENSO_VERIF_POINT("TpReadNotWorking", this);
     if (sleeping > 0 &&
         numNotWorking_.load(std::memory_order_relaxed) - sleeping < kSpinnerWakeThreshold) {
       int32_t wokeThread = ws->claimAndWakeOne();
       if (wokeThread >= 0) {
         size_t stealIdx = static_cast<size_t>(wokeThread) / stealRingSharing_;
+        DISPENSO_VERIF_POINT("TpPushSteal", this);
         if (stealIdx < numStealRings_.load(std::memory_order_relaxed) &&
             stealRings_[stealIdx].try_push(std::move(task))) {
           if (stealIdx < kMaxStealRings) {
+            DISPENSO_VERIF_POINT("TpSetStealBit", this);
             stealRingsWithWork_.fetch_or(uint64_t{1} << stealIdx, std::memory_order_release);
           }
           return;
@@ -706,6 +727,7 @@ DISPENSO_INLINE void ThreadPool::scheduleImplPlaced(
 inline bool ThreadPool::tryExecuteNext() {
   OnceFunction next;
   DISPENSO_TSAN_ANNOTATE_IGNORE_WRITES_BEGIN();
+  DISPENSO_VERIF_POINT("TpStealCentral", this);
   bool dequeued = work_.try_dequeue(next);
   DISPENSO_TSAN_ANNOTATE_IGNORE_WRITES_END();
   if (dequeued) {
@@ -717,6 +739,7 @@ inline bool ThreadPool::tryExecuteNext() {
 
 inline bool ThreadPool::tryExecuteNextFromProducerToken(moodycamel::ProducerToken& token) {
   OnceFunction next;
+  DISPENSO_VERIF_POINT("TpStealCentralTok", this);
   if (work_.try_dequeue_from_producer(token, next)) {
     executeNext(std::move(next));
     return true;
@@ -731,9 +754,11 @@ inline bool ThreadPool::tryExecuteNextFromRings(size_t& startRing) {
   // could observe the grown count without the rings' construction being visible,
   // letting us index a not-yet-constructed ring (UB; SIGILL on weak-memory targets
   // like arm64).
+  DISPENSO_VERIF_POINT("TpRingsLoadCount", this);
   size_t n = numRings_.load(std::memory_order_acquire);
   for (size_t i = 0; i < n; ++i) {
     size_t idx = (startRing + i) % n;
+    DISPENSO_VERIF_POINT("TpRingsPop", this);
     if (rings_[idx].try_pop(task)) {
       startRing = idx;
       executeNext(std::move(task));
@@ -746,6 +771,7 @@ inline bool ThreadPool::tryExecuteNextFromRings(size_t& startRing) {
 
 inline void ThreadPool::executeNext(OnceFunction next) {
   next();
+  DISPENSO_VERIF_POINT("TpDecWork", this);
   workRemaining_.fetch_add(-1, std::memory_order_relaxed);
 }
 
@@ -759,13 +785,16 @@ DISPENSO_INLINE bool ThreadPool::tryFindAndExecuteWork(
     bool checkQueue) {
   OnceFunction task;
   if (preferRing) {
+    DISPENSO_VERIF_POINT("TpWkPopRing", this);
     bool fromRing = myRing.try_pop(task);
     if (fromRing) {
       task();
       return true;
     }
+    DISPENSO_VERIF_POINT("TpWkReadFlag", this);
     if (checkQueue && centralQueueNonEmpty_.load(std::memory_order_relaxed)) {
       DISPENSO_TSAN_ANNOTATE_IGNORE_WRITES_BEGIN();
+      DISPENSO_VERIF_POINT("TpWkDequeue", this);
       bool got = work_.try_dequeue(ctoken, task);
       DISPENSO_TSAN_ANNOTATE_IGNORE_WRITES_END();
       if (got) {
@@ -774,13 +803,16 @@ DISPENSO_INLINE bool ThreadPool::tryFindAndExecuteWork(
         return true;
       }
       // Empty on observation; clear flag (relaxed, plain store).
+      DISPENSO_VERIF_POINT("TpWkClearFlag", this);
       centralQueueNonEmpty_.store(false, std::memory_order_relaxed);
     }
+    DISPENSO_VERIF_POINT("TpWkPopSteal", this);
     if (!myStealRing.empty() && myStealRing.try_pop(task)) {
       task();
       return true;
     }
     if (failCount >= kCrossRingFailThreshold) {
+      DISPENSO_VERIF_POINT("TpWkReadStealMask", this);
       uint64_t mask = stealRingsWithWork_.load(std::memory_order_acquire);
       if (mask != 0) {
         if (myStealIdx < kMaxStealRings) {
@@ -788,25 +820,31 @@ DISPENSO_INLINE bool ThreadPool::tryFindAndExecuteWork(
         }
         if (mask != 0) {
           int target = detail::countTrailingZeros(mask);
+          DISPENSO_VERIF_POINT("TpWkCrossSteal", this);
           if (stealRings_[static_cast<size_t>(target)].try_pop(task)) {
             task();
             return true;
           }
+          DISPENSO_VERIF_POINT("TpWkClearStealBit", this);
           stealRingsWithWork_.fetch_and(~(uint64_t{1} << target), std::memory_order_relaxed);
         }
       }
     }
   } else {
+    DISPENSO_VERIF_POINT("TpWkReadFlag", this);
     if (checkQueue && centralQueueNonEmpty_.load(std::memory_order_relaxed)) {
       DISPENSO_TSAN_ANNOTATE_IGNORE_WRITES_BEGIN();
+      DISPENSO_VERIF_POINT("TpWkDequeue", this);
       bool got = work_.try_dequeue(ctoken, task);
       DISPENSO_TSAN_ANNOTATE_IGNORE_WRITES_END();
       if (got) {
         task();
         return true;
       }
+      DISPENSO_VERIF_POINT("TpWkClearFlag", this);
       centralQueueNonEmpty_.store(false, std::memory_order_relaxed);
     }
+    DISPENSO_VERIF_POINT("TpWkPopRing", this);
     bool fromRing = myRing.try_pop(task);
     if (fromRing) {
       preferRing = true;
@@ -829,6 +867,7 @@ DISPENSO_INLINE void ThreadPool::scheduleBulkToRingsFastPath(
   // that wakes its target group BEFORE running user work. Producer issues
   // one wake-all on the seed group; the woken threads cascade in parallel
   // to all other groups, then run their own user work.
+  DISPENSO_VERIF_POINT("TpBulkLoadWake", this);
   auto* wsCascade = detail::consumeLoad(wakeState_);
   bool useCascade = enableEpochWaiter_.load(std::memory_order_acquire) && wsCascade &&
       wsCascade->totalSleeping() > 0;
@@ -842,10 +881,12 @@ DISPENSO_INLINE void ThreadPool::scheduleBulkToRingsFastPath(
         wsCascade->cascadeWake(target);
         inner();
       };
+      DISPENSO_VERIF_POINT("TpPushRing", this);
       if (!rings_[ring].try_push(std::move(wrapped))) {
         enqueueToCentralQueue(std::move(wrapped), fallbackToken);
       }
     } else {
+      DISPENSO_VERIF_POINT("TpPushRing", this);
       if (!rings_[ring].try_push(std::move(task))) {
         enqueueToCentralQueue(std::move(task), fallbackToken);
       }
@@ -854,6 +895,7 @@ DISPENSO_INLINE void ThreadPool::scheduleBulkToRingsFastPath(
 #else
   for (size_t ring = 0; ring < count && ring < ringCount; ++ring) {
     OnceFunction task = gen(ring);
+    DISPENSO_VERIF_POINT("TpPushRing", this);
     if (!rings_[ring].try_push(std::move(task))) {
       enqueueToCentralQueue(std::move(task), fallbackToken);
     }
@@ -880,6 +922,7 @@ DISPENSO_INLINE void ThreadPool::scheduleBulkToRingsBatched(
       staged[j] = gen(taskIdx + j);
     }
 
+    DISPENSO_VERIF_POINT("TpPushRingBatch", this);
     size_t pushed = rings_[ring].try_push_batch(staged, toStage);
 
     for (size_t j = pushed; j < toStage; ++j) {
@@ -903,11 +946,13 @@ void ThreadPool::scheduleBulkToRings(
   }
   assert(count <= numRings_.load(std::memory_order_relaxed));
 
+  DISPENSO_VERIF_POINT("TpAddWorkN", this);
   workRemaining_.fetch_add(static_cast<ssize_t>(count), std::memory_order_release);
 
   // Acquire: see tryExecuteNextFromRings. Pairs with the release store in
   // resizeLocked so we observe the freshly-constructed rings, not merely the
   // updated count.
+  DISPENSO_VERIF_POINT("TpBulkLoadRingCount", this);
   size_t ringCount = numRings_.load(std::memory_order_acquire);
   size_t tasksPerRing = (count + ringCount - 1) / ringCount;
 
@@ -918,6 +963,7 @@ void ThreadPool::scheduleBulkToRings(
         count, ringCount, tasksPerRing, std::forward<Generator>(gen), fallbackToken);
   }
 
+  DISPENSO_VERIF_POINT("TpLoadWake", this);
   auto* ws = detail::consumeLoad(wakeState_);
   if (enableEpochWaiter_.load(std::memory_order_acquire) && ws) {
 #if !defined(DISPENSO_DISABLE_CASCADE_WAKERANGE)
@@ -965,9 +1011,11 @@ void ThreadPool::scheduleBulkEnqueue(
   detail::BulkGenIter<typename std::remove_reference<Generator>::type> it{&gen, 0};
 
   // Single atomic update + bulk enqueue
+  DISPENSO_VERIF_POINT("TpAddWorkN", this);
   workRemaining_.fetch_add(static_cast<ssize_t>(count), std::memory_order_release);
 
   DISPENSO_TSAN_ANNOTATE_IGNORE_WRITES_BEGIN();
+  DISPENSO_VERIF_POINT("TpEnqueueBulk", this);
   bool enqueued;
   if (token) {
     enqueued = work_.enqueue_bulk(*token, it, count);
@@ -984,16 +1032,20 @@ void ThreadPool::scheduleBulkEnqueue(
 #endif
   }
   // Mark queue as possibly-non-empty so spinning workers will try_dequeue.
+  DISPENSO_VERIF_POINT("TpSetFlag", this);
   centralQueueNonEmpty_.store(true, std::memory_order_relaxed);
 
   // Wake appropriate threads. Cap by actual sleeping count to avoid over-waking.
   // Spinning threads (numNotWorking - totalSleeping) will find enqueued work
   // naturally, so only wake enough sleepers to cover the deficit beyond the
   // spinner threshold.
+  DISPENSO_VERIF_POINT("TpLoadWake", this);
   auto* ws = detail::consumeLoad(wakeState_);
   if (enableEpochWaiter_.load(std::memory_order_acquire) && ws) {
+    DISPENSO_VERIF_POINT("TpReadSleeping", this);
     int32_t sleeping = ws->totalSleeping();
     if (sleeping > 0) {
+      DISPENSO_VERIF_POINT("TpReadNotWorking", this);
       int32_t notWorking = numNotWorking_.load(std::memory_order_relaxed);
       int32_t spinning = std::max(int32_t{0}, notWorking - sleeping);
       // Only count spinners beyond the threshold as "covering" tasks
@@ -1024,6 +1076,7 @@ void ThreadPool::scheduleBulkImpl(size_t count, Generator&& gen) {
     return;
   }
 
+  DISPENSO_VERIF_POINT("TpBulkLoadThreads", this);
   ssize_t numPool = numThreads_.load(std::memory_order_relaxed);
   if (!numPool) {
     for (size_t i = 0; i < count; ++i) {
@@ -1036,6 +1089,7 @@ void ThreadPool::scheduleBulkImpl(size_t count, Generator&& gen) {
   size_t chunkSize = static_cast<size_t>(numPool) + static_cast<size_t>(numPool) / 2;
   size_t i = 0;
   while (i < count) {
+    DISPENSO_VERIF_POINT("TpBulkLoadCheck", this);
     ssize_t curWork = workRemaining_.load(std::memory_order_relaxed);
     ssize_t loadFactor = poolLoadFactor_.load(std::memory_order_relaxed);
     if (curWork > loadFactor) {
@@ -1049,6 +1103,7 @@ void ThreadPool::scheduleBulkImpl(size_t count, Generator&& gen) {
       }
       size_t base = i;
       if (kPlaced) {
+        DISPENSO_VERIF_POINT("TpAddWorkN", this);
         workRemaining_.fetch_add(static_cast<ssize_t>(toEnqueue), std::memory_order_release);
         for (size_t j = 0; j < toEnqueue; ++j) {
           scheduleImplPlaced({gen(base + j)}, nullptr);
